@@ -7,7 +7,21 @@ import (
 	"github.com/enbility/spine-go/model"
 )
 
+// CreateFunctionData returns the function data of a feature type and
+// panics if the feature type is not known
 func CreateFunctionData[F any](featureType model.FeatureTypeType) []F {
+	result := functionDataForFeatureType[F](featureType)
+
+	if len(result) == 0 {
+		panic(fmt.Errorf("unknown featureType '%s'", featureType))
+	}
+
+	return result
+}
+
+// functionDataForFeatureType returns the function data of a feature type,
+// nothing if the feature type is not known
+func functionDataForFeatureType[F any](featureType model.FeatureTypeType) []F {
 	// Some devices use generic for everything (e.g. Vaillant Arotherm heatpump)
 	// or for some things like the SMA HM 2.0 or Elli Wallbox, which uses Generic feature
 	// for Heartbeats, even though that should go into FeatureTypeTypeDeviceDiagnosis
@@ -297,10 +311,6 @@ func CreateFunctionData[F any](featureType model.FeatureTypeType) []F {
 			createFunctionData[model.TimeTableDescriptionListDataType, F](model.FunctionTypeTimeTableDescriptionListData),
 			createFunctionData[model.TimeTableListDataType, F](model.FunctionTypeTimeTableListData),
 		}...)
-	}
-
-	if len(result) == 0 {
-		panic(fmt.Errorf("unknown featureType '%s'", featureType))
 	}
 
 	return result
